@@ -192,6 +192,11 @@ func runC11(c *eng.Ctx) {
 	}
 	c.Floor(1)
 
+	// ---- R11.6 acquire/release pairing
+	c.Rule("R11.6", "K2")
+	ruleLockPairing(c, "server/cursors.go")
+	c.Floor(3)
+
 	// ---- R11.5 leader gate
 	c.Rule("R11.5", "K1")
 	for _, k := range []string{"server.(*cursorManager).SetCursor", "server.(*cursorManager).GetCursor"} {
